@@ -361,10 +361,14 @@ fn print_xml(
 			get_value_type(literal),
 		))),
 
-		(SimpleStringLiteral { literal }, _) => Box::new(once(format!(
-			"<SimpleStringLiteral src={:?} />",
-			get_source(literal).trim_matches('"')
-		))),
+		(SimpleStringLiteral { literal }, _) =>
+		{
+			// Strip the delimiters only, not an escaped quote next to them.
+			let quoted = get_source(literal);
+			let inner = quoted.strip_prefix('"').unwrap_or(quoted);
+			let inner = inner.strip_suffix('"').unwrap_or(inner);
+			Box::new(once(format!("<SimpleStringLiteral src={:?} />", inner)))
+		}
 
 		(CompositeStringLiteral { start }, [_, _, _, _, EndOfSpan { end }]) =>
 		{
